@@ -1,11 +1,13 @@
 package props
 
 import (
+	"encoding/binary"
 	"fmt"
 	"reflect"
 
 	"github.com/golang/protobuf/proto"
 	"github.com/openacid/slim/array"
+	"github.com/openacid/slim/encode"
 )
 
 // ---------------------------------------------------------------------------
@@ -25,6 +27,125 @@ type typedArray struct {
 	base     *array.Base                         // its Base
 	get      func(idx int32) (interface{}, bool) // typed accessor
 	newEmpty func() (proto.Message, *array.Base, func(int32) (interface{}, bool))
+	// mkSlice builds the typed element slice (generic arrays only)
+	mkSlice func(raws []uint64) interface{}
+}
+
+// arrBlank has blank (reserved / padding) fields: encoding/binary writes them as
+// zero bytes and skips them when reading; they occupy their bytes.
+type arrBlank struct {
+	K   uint8
+	_   [3]byte
+	Off uint32
+	_   uint16
+	T   int16
+}
+
+// genKind: the generic array.Array over an element type, either with the
+// encoder the library chooses (enc == nil) or with one the user configured
+// through the exported EltEncoder field.
+type genKind struct {
+	width int
+	elt   func(raw uint64) interface{}
+	bytes func(raw uint64) []byte
+	slice func(raws []uint64) interface{}
+	enc   func() encode.Encoder
+}
+
+func beBytes(v uint64, w int) []byte { return putOrd(nil, v, w, true) }
+
+func mustEnc(e encode.Encoder, err error) encode.Encoder {
+	if err != nil {
+		panic(err)
+	}
+	return e
+}
+
+var genKinds = map[string]*genKind{
+	"GenI32": {4, func(r uint64) interface{} { return int32(r) }, func(r uint64) []byte { return leBytes(r, 4) },
+		func(raws []uint64) interface{} {
+			e := make([]int32, len(raws))
+			for i, r := range raws {
+				e[i] = int32(r)
+			}
+			return e
+		}, nil},
+	"GenU32BE": {4, func(r uint64) interface{} { return uint32(r) }, func(r uint64) []byte { return beBytes(r, 4) },
+		func(raws []uint64) interface{} {
+			e := make([]uint32, len(raws))
+			for i, r := range raws {
+				e[i] = uint32(r)
+			}
+			return e
+		}, func() encode.Encoder { return mustEnc(encode.NewTypeEncoderEndian(uint32(0), binary.BigEndian)) }},
+	"GenI64BE": {8, func(r uint64) interface{} { return int64(r) }, func(r uint64) []byte { return beBytes(r, 8) },
+		func(raws []uint64) interface{} {
+			e := make([]int64, len(raws))
+			for i, r := range raws {
+				e[i] = int64(r)
+			}
+			return e
+		}, func() encode.Encoder { return mustEnc(encode.NewTypeEncoderEndian(int64(0), binary.BigEndian)) }},
+	"GenU16Enc": {2, func(r uint64) interface{} { return uint16(r) }, func(r uint64) []byte { return leBytes(r, 2) },
+		func(raws []uint64) interface{} {
+			e := make([]uint16, len(raws))
+			for i, r := range raws {
+				e[i] = uint16(r)
+			}
+			return e
+		}, func() encode.Encoder { return encode.U16{} }},
+	"GenNamedBE": {4, func(r uint64) interface{} { return namedU32(r) }, func(r uint64) []byte { return beBytes(r, 4) },
+		func(raws []uint64) interface{} {
+			e := make([]namedU32, len(raws))
+			for i, r := range raws {
+				e[i] = namedU32(r)
+			}
+			return e
+		}, func() encode.Encoder { return mustEnc(encode.NewTypeEncoderEndian(namedU32(0), binary.BigEndian)) }},
+	"GenStructBE": {8, func(r uint64) interface{} { return structOf(r) },
+		func(r uint64) []byte {
+			b := beBytes(r&0xffff, 2)
+			b = append(b, beBytes(r>>16&0xffffffff, 4)...)
+			return append(b, byte(r>>48), byte(r>>56))
+		},
+		func(raws []uint64) interface{} {
+			e := make([]arrStruct, len(raws))
+			for i, r := range raws {
+				e[i] = structOf(r)
+			}
+			return e
+		}, func() encode.Encoder { return mustEnc(encode.NewTypeEncoderEndian(arrStruct{}, binary.BigEndian)) }},
+	"GenBlank": {12, func(r uint64) interface{} { return arrBlank{K: uint8(r), Off: uint32(r >> 8), T: int16(r >> 40)} },
+		func(r uint64) []byte {
+			b := []byte{byte(r), 0, 0, 0}
+			b = append(b, leBytes(r>>8, 4)...)
+			b = append(b, 0, 0)
+			return append(b, leBytes(r>>40, 2)...)
+		},
+		func(raws []uint64) interface{} {
+			e := make([]arrBlank, len(raws))
+			for i, r := range raws {
+				e[i] = arrBlank{K: uint8(r), Off: uint32(r >> 8), T: int16(r >> 40)}
+			}
+			return e
+		}, nil},
+}
+
+var genKindNames = []string{"GenI32", "GenU32BE", "GenI64BE", "GenU16Enc", "GenNamedBE", "GenStructBE", "GenBlank"}
+
+// genericEmpty: an empty generic array prepared to receive a serialized array of
+// this kind (the user configures the same encoder again).
+func genericEmpty(kind string) (*array.Array, error) {
+	if gk := genKinds[kind]; gk != nil && gk.enc != nil {
+		a := &array.Array{}
+		a.EltEncoder = gk.enc()
+		return a, nil
+	}
+	return array.NewEmpty(eltOf(kind, 0))
+}
+
+func structOf(raw uint64) arrStruct {
+	return arrStruct{A: uint16(raw), B: int32(raw >> 16), C: [2]uint8{uint8(raw >> 48), uint8(raw >> 56)}}
 }
 
 func eltOf(kind string, raw uint64) interface{} {
@@ -42,7 +163,10 @@ func eltOf(kind string, raw uint64) interface{} {
 	case "I64":
 		return int64(raw)
 	case "Struct":
-		return arrStruct{A: uint16(raw), B: int32(raw >> 16), C: [2]uint8{uint8(raw >> 48), uint8(raw >> 56)}}
+		return structOf(raw)
+	}
+	if gk := genKinds[kind]; gk != nil {
+		return gk.elt(raw)
 	}
 	panic("harness: unknown array kind " + kind)
 }
@@ -59,6 +183,9 @@ func eltBytes(kind string, raw uint64) []byte {
 		b := leBytes(raw, 2)
 		b = append(b, leBytes(raw>>16, 4)...)
 		return append(b, byte(raw>>48), byte(raw>>56))
+	}
+	if gk := genKinds[kind]; gk != nil {
+		return gk.bytes(raw)
 	}
 	panic("harness: unknown array kind " + kind)
 }
@@ -187,6 +314,13 @@ func buildArray(kind string, idx []int32, raws []uint64) (ta *typedArray, err er
 		}
 		ta.width, ta.msg, ta.base = 8, a, &a.Base
 		ta.get = func(i int32) (interface{}, bool) { return a.Get(i) }
+		ta.mkSlice = func(raws []uint64) interface{} {
+			e := make([]arrStruct, len(raws))
+			for i, r := range raws {
+				e[i] = eltOf("Struct", r).(arrStruct)
+			}
+			return e
+		}
 		ta.newEmpty = func() (proto.Message, *array.Base, func(int32) (interface{}, bool)) {
 			b, err := array.NewEmpty(arrStruct{})
 			if err != nil {
@@ -195,7 +329,35 @@ func buildArray(kind string, idx []int32, raws []uint64) (ta *typedArray, err er
 			return b, &b.Base, func(i int32) (interface{}, bool) { return b.Get(i) }
 		}
 	default:
-		return nil, fmt.Errorf("unknown array kind %q", kind)
+		gk := genKinds[kind]
+		if gk == nil {
+			return nil, fmt.Errorf("unknown array kind %q", kind)
+		}
+		var a *array.Array
+		var er error
+		if gk.enc == nil {
+			a, er = array.New(idx, gk.slice(raws))
+			if er != nil && a != nil {
+				return nil, viol("array-err-and-value", "array.New returned an error and a non-nil array")
+			}
+		} else {
+			a = &array.Array{}
+			a.EltEncoder = gk.enc()
+			er = a.Init(idx, gk.slice(raws))
+		}
+		if er != nil {
+			return nil, er
+		}
+		ta.width, ta.msg, ta.base = gk.width, a, &a.Base
+		ta.get = func(i int32) (interface{}, bool) { return a.Get(i) }
+		ta.mkSlice = gk.slice
+		ta.newEmpty = func() (proto.Message, *array.Base, func(int32) (interface{}, bool)) {
+			b, err := genericEmpty(kind)
+			if err != nil {
+				panic(err)
+			}
+			return b, &b.Base, func(i int32) (interface{}, bool) { return b.Get(i) }
+		}
 	}
 	return ta, nil
 }
@@ -285,7 +447,13 @@ func checkC16(c *Case, s *Stats) error {
 		}
 		return viol("valid-rejected", "constructor rejected valid input for the earlier array: %v", eerr)
 	}
-	before := fmt.Sprintf("%v", snapshotArray(earlier, 9000))
+	var before string
+	if err := guard("reading an array right after building it", func() error {
+		before = fmt.Sprintf("%v", snapshotArray(earlier, 9000))
+		return nil
+	}); err != nil {
+		return err
+	}
 	if err := checkC16inner(c, s); err != nil {
 		return err
 	}
@@ -340,7 +508,10 @@ func checkC16inner(c *Case, s *Stats) error {
 		// Init on an existing array must leave it observably unchanged
 		if len(c.Probe) > 0 {
 			good, _ := buildArray(kind, []int32{1, 70, 200}, []uint64{11, 22, 33})
-			before := fmt.Sprintf("%v", snapshotArray(good, 256))
+			before, serr := safeSnapshot(good, 256)
+			if serr != nil {
+				return serr
+			}
 			err := guard("Init with invalid input on an existing array", func() error {
 				var e error
 				switch a := good.msg.(type) {
@@ -363,8 +534,7 @@ func checkC16inner(c *Case, s *Stats) error {
 					el := make([]int64, len(raws))
 					e = a.Init(idx, el)
 				case *array.Array:
-					el := make([]arrStruct, len(raws))
-					e = a.Init(idx, el)
+					e = a.Init(idx, good.mkSlice(make([]uint64, len(raws))))
 				}
 				if e == nil {
 					return viol("invalid-accepted", "Init accepted invalid input")
@@ -374,7 +544,11 @@ func checkC16inner(c *Case, s *Stats) error {
 			if err != nil {
 				return err
 			}
-			if after := fmt.Sprintf("%v", snapshotArray(good, 256)); after != before {
+			after, serr := safeSnapshot(good, 256)
+			if serr != nil {
+				return serr
+			}
+			if after != before {
 				return viol("partial-init", "a rejected Init changed an existing array: %s -> %s", before, after)
 			}
 			s.class("rejected_init_leaves_array_unchanged")
@@ -389,7 +563,7 @@ func checkC16inner(c *Case, s *Stats) error {
 				e = ga.Init(idx, make([]uint16, len(raws)))
 			case "U32", "I32":
 				e = ga.Init(idx, make([]int32, len(raws)))
-			case "U64", "I64":
+			case "U64", "I64", "GenI64BE":
 				e = ga.Init(idx, make([]uint64, len(raws)))
 			default:
 				e = ga.Init(idx, make([]arrStruct, len(raws)))
@@ -484,11 +658,7 @@ func checkC16inner(c *Case, s *Stats) error {
 				}
 				e = a.Init(idx, el)
 			case *array.Array:
-				el := make([]arrStruct, len(raws))
-				for i, r := range raws {
-					el[i] = eltOf(kind, r).(arrStruct)
-				}
-				e = a.Init(idx, el)
+				e = a.Init(idx, first.mkSlice(raws))
 			}
 			return nil
 		})
@@ -621,7 +791,7 @@ func checkC16inner(c *Case, s *Stats) error {
 	}
 	// ... and into the generic array type
 	if len(idx) > 0 {
-		gen, e := array.NewEmpty(eltOf(kind, 0))
+		gen, e := genericEmpty(kind)
 		if e != nil {
 			return viol("array-newempty", "NewEmpty(%T) failed: %v", eltOf(kind, 0), e)
 		}
@@ -673,6 +843,15 @@ func checkC16inner(c *Case, s *Stats) error {
 	s.calls(5 * len(probes))
 	s.done(c, emptyWordProbe, kind)
 	return nil
+}
+
+func safeSnapshot(ta *typedArray, span int32) (string, error) {
+	var out string
+	err := guard("reading every index of an array", func() error {
+		out = fmt.Sprintf("%v", snapshotArray(ta, span))
+		return nil
+	})
+	return out, err
 }
 
 func snapshotArray(ta *typedArray, span int32) []string {
